@@ -6,6 +6,7 @@ import (
 	"path/filepath"
 	"runtime"
 	"strconv"
+	"strings"
 	"sync/atomic"
 	"testing"
 	"time"
@@ -166,4 +167,59 @@ func TestLease(t *testing.T) {
 	}
 	defer f.Close()
 	RunLease(t, seed, os.Getenv("VERIF_THOROUGH") == "1", f)
+}
+
+// TestEventer records the event-API history; TestStress runs the concurrent-use stress (meant for -race).
+func TestEventer(t *testing.T) {
+	out := os.Getenv("VERIF_OUT")
+	if out == "" {
+		t.Skip("VERIF_OUT not set")
+	}
+	os.MkdirAll(out, 0o755)
+	if script := os.Getenv("VERIF_SCRIPT"); script != "" {
+		// replay: the header of a recorded history names the seed and the number of scenarios
+		data, err := os.ReadFile(script)
+		if err != nil {
+			t.Fatal(err)
+		}
+		var s, k int64
+		for _, line := range strings.Split(string(data), "\n") {
+			if _, err := fmt.Sscanf(line, "# seed %d scenarios %d", &s, &k); err == nil {
+				break
+			}
+		}
+		f, err := os.Create(filepath.Join(out, "replay.hist"))
+		if err != nil {
+			t.Fatal(err)
+		}
+		RunEventer(s, int(k), f)
+		f.Close()
+		return
+	}
+	seed := envInt("VERIF_SEED", 1)
+	from := envInt("VERIF_FROM", 0)
+	n := int(envInt("VERIF_N", 1))
+	for i := 0; i < n; i++ {
+		f, err := os.Create(filepath.Join(out, fmt.Sprintf("eventer-%d-%05d.hist", seed, from+int64(i))))
+		if err != nil {
+			t.Fatal(err)
+		}
+		RunEventer(seed*7919+from+int64(i), int(envInt("VERIF_EV_SCENARIOS", 24)), f)
+		f.Close()
+	}
+}
+
+func TestStress(t *testing.T) {
+	out := os.Getenv("VERIF_OUT")
+	if out == "" {
+		t.Skip("VERIF_OUT not set")
+	}
+	seed := envInt("VERIF_SEED", 1)
+	d := time.Duration(envInt("VERIF_STRESS_MS", 300)) * time.Millisecond
+	p2 := StressV2(seed, d)
+	p1 := StressV1(seed, d)
+	fmt.Printf("STRESS panics v1=%d v2=%d\n", p1, p2)
+	if p1+p2 > 0 {
+		t.Fatalf("panics under concurrent use: v1=%d v2=%d", p1, p2)
+	}
 }
